@@ -7,6 +7,7 @@ import (
 	"fmt"
 	"math/rand"
 	"runtime"
+	"sync"
 	"testing"
 	"time"
 
@@ -39,11 +40,33 @@ func c05Occupancy(a *vAgent) map[string]int {
 	return out
 }
 
+// c05TryLock takes one of the agent's own allocator locks, but not for ever: a handler that deadlocked while holding it
+// must not wedge the monitor as well.
+func c05TryLock(mu *sync.Mutex, what string) bool {
+	deadline := time.Now().Add(20 * time.Second)
+	for !mu.TryLock() {
+		if time.Now().After(deadline) {
+			if vCurRes != nil {
+				if frame, dump := vParkedHandler(); frame != "" {
+					vCurRes.violate(vCurRes.Property+".WEDGE", frame+" holds "+what, "the "+what+" lock has been held for 20 s: a message handler / teardown is parked in "+frame+" with no datapath call outstanding", map[string]interface{}{"goroutine": dump})
+				} else {
+					vCurRes.inconclusive("the " + what + " lock could not be taken for 20 s (no parked handler found in the dump)")
+				}
+			}
+			return false
+		}
+		time.Sleep(200 * time.Microsecond)
+	}
+	return true
+}
+
 func c05OccupancyLocked(a *vAgent) map[string]int {
 	out := map[string]int{}
 	u := a.iface.upf
 	if u.ippool != nil {
-		u.ippool.mu.Lock()
+		if !c05TryLock(&u.ippool.mu, "UE IP pool") {
+			return out
+		}
 		out["ip_free"] = len(u.ippool.freePool)
 		out["ip_held"] = len(u.ippool.inventory)
 		u.ippool.mu.Unlock()
